@@ -1,6 +1,7 @@
 package props
 
 import (
+	"encoding/json"
 	"fmt"
 	"strings"
 	"unicode"
@@ -400,7 +401,7 @@ func c11CaseMapping(r *core.Run) {
 			continue
 		}
 		cased := unicode.ToLower(c) != c || unicode.ToUpper(c) != c || unicode.ToTitle(c) != c
-		if r.Thorough() || cased || c < 0x100 || c&0xFFF == 0 || c&0xFFF == 0xFFF {
+		if r.Thorough() || cased || c < 0x3000 || c&0xFFF < 64 || c&0xFFF >= 0xFC0 || c >= 0xFE00 && c <= 0xFFFF {
 			cps = append(cps, c)
 		}
 	}
@@ -415,7 +416,35 @@ func c11CaseMapping(r *core.Run) {
 		if v := c11CasePoint(r, c); v != nil {
 			r.Violate(v)
 		}
+		if v := c11TrimPoint(r, c); v != nil {
+			r.Violate(v)
+		}
 	}
+}
+
+const c11TrimExpr = "[trim(s), trim_left(s), trim_right(s), trim(t), trim_left(t), trim_right(t), trim_right(u, ''), trim(t, ''), length(u), reverse(s), trim_right(u)[::-1], keys(k)[0], find_first(t, 'a'), pad_left(u, `4`, 'x')]"
+
+// c11TrimPoint: the default trim set is exactly Unicode White_Space: every code point at the edges of a string is either
+// removed (if it is white space) or stays whole; compared with the reference; every result valid UTF-8.
+func c11TrimPoint(r *core.Run, c rune) *core.Violation {
+	ch := string(c)
+	d := mkDocRaw(map[string]any{"s": ch + "a" + ch, "t": " " + ch + "a" + ch + "\t", "u": "a" + ch + " ", "k": map[string]any{ch: json.Number("1")}})
+	o := prepareImplCached(c11TrimExpr).run(d.Raw)
+	r.Eval(o)
+	r.Add("states", 1)
+	r.Add("transitions", 1)
+	mk := func(kind, exp string) *core.Violation {
+		return &core.Violation{Sig: "C11/code-point/" + kind, Desc: fmt.Sprintf("%s with s = c+\"a\"+c, t = \" \"+c+\"a\"+c+TAB, u = \"a\"+c+\" \", c = U+%04X", c11TrimExpr, c),
+			Point: map[string]any{"expr": c11TrimExpr, "doc": fmt.Sprintf("U+%04X", c), "kind": "trim-point", "cp": fmt.Sprint(int(c))}, Expected: exp, Actual: o.Short()}
+	}
+	if o.Kind == "ok" && !core.ValidUTF8(o.Raw) {
+		return mk("invalid-utf8", "valid UTF-8")
+	}
+	want := ref.Eval(c11TrimExpr, d.Norm)
+	if k := refDiff(o, want); k != "" {
+		return mk("reference/"+k, want.String())
+	}
+	return nil
 }
 
 var c11CaseExpr = lazyExpr{"[lower(s), upper(s), lower(x), upper(x), lower(d), upper(d), lower(lower(s)), upper(upper(s))]"}
@@ -464,6 +493,11 @@ func c11CasePoint(r *core.Run, c rune) *core.Violation {
 func c11Judge(r *core.Run, phase string, pt map[string]any) *core.Violation {
 	core.EnableTicks(100000)
 	kind := pstr(pt, "kind")
+	if kind == "trim-point" {
+		var cp int
+		fmt.Sscan(pstr(pt, "cp"), &cp)
+		return c11TrimPoint(r, rune(cp))
+	}
 	if kind == "case-mapping" {
 		var cp int
 		fmt.Sscan(pstr(pt, "cp"), &cp)
